@@ -13,7 +13,7 @@ import ast
 import inspect
 
 from ..paths import enumerate_paths
-from ..program import AnalysisError, Program, unparse, short, walk_no_nested, increment_of, sequential_expand, call_chain, xunparse, single_defs
+from ..program import AnalysisError, Program, unparse, short, walk_no_nested, increment_of, sequential_expand, call_chain, xunparse, single_defs, expand_locals
 from ..report import Report
 
 
@@ -116,13 +116,44 @@ def alignment(prog: Program, rep: Report) -> None:
     rep.check(rule, fi.qual, "cursor starts at 0", len(idx) == 1 and unparse(idx[0].value) == "0", what_bad="cursor initialisation", what_ok="0", loc=fi.loc())
 
 
+MEMBERSHIP_PRESERVING = ("set", "frozenset", "list", "tuple", "sorted")
+
+
+def _is_step_collection(prog: Program, e: ast.expr):
+    """`e` denotes the collection of release steps: self.steps, or an attribute assigned once in
+    __init__, after self.steps, to set/frozenset/list/tuple/sorted(self.steps)."""
+    if unparse(e) == "self.steps":
+        return True, ""
+    init = prog.role_func("release", "__init__")
+    defs = [n for n in ast.walk(init.node) if isinstance(n, (ast.Assign, ast.AugAssign, ast.AnnAssign)) and unparse(n.targets[0] if isinstance(n, ast.Assign) else n.target) == unparse(e)]
+    steps_def = [n for n in walk_no_nested(init.node) if isinstance(n, ast.Assign) and unparse(n.targets[0]) == "self.steps"]
+    stores_elsewhere = [fi.qual for fi in prog.module("release").functions.values() if fi.qual != init.qual for n in ast.walk(fi.node) if isinstance(n, ast.Attribute) and isinstance(n.ctx, ast.Store) and unparse(n) == unparse(e)]
+    if len(defs) == 1 and isinstance(defs[0], ast.Assign) and steps_def and not stores_elsewhere:
+        v = defs[0].value
+        if isinstance(v, ast.Call) and unparse(v.func) in MEMBERSHIP_PRESERVING and len(v.args) == 1 and not v.keywords and unparse(v.args[0]) == "self.steps" and defs[0].lineno > steps_def[-1].lineno:
+            return True, ""
+    return False, f"({unparse(e)} is not self.steps or a set/list copy of it made in __init__)"
+
+
 def cursor(prog: Program, rep: Report) -> None:
     rule = "R04.3"
     up = prog.role_func("release", "update")
-    ifs = [n for n in walk_no_nested(up.node) if isinstance(n, ast.If)]
-    step = [n for n in walk_no_nested(up.node) if isinstance(n, ast.Assign) and unparse(n.targets[0]) == "step"]
-    ok = len(ifs) == 1 and unparse(ifs[0].test) == "step in self.steps" and bool(step) and unparse(step[0].value) == "self.modules['time'].step"
-    rep.check(rule, up.qual, "release iff the current step is a release step", ok, what_bad=f"trigger {[short(i.test) for i in ifs]}, step = {unparse(step[0].value) if step else None}", what_ok="timer.step in self.steps", loc=up.loc())
+    def has_release(n: ast.AST) -> bool:
+        return any(isinstance(c, ast.Call) and (unparse(c.func) in ("next", "self.__next__") or unparse(c.func).endswith(".append")) for c in ast.walk(n))
+
+    all_ifs = [n for n in walk_no_nested(up.node) if isinstance(n, ast.If)]
+    ifs = [n for n in all_ifs if has_release(n)]
+    # a release outside any trigger?
+    unguarded = [st for st in up.node.body if not isinstance(st, ast.If) and has_release(st)]
+    trig = xunparse(ifs[0].test, up.node) if ifs else ""
+    ok = len(ifs) == 1 and not unguarded and ifs[0] in up.node.body
+    what = ""
+    if ok:
+        t = expand_locals(ifs[0].test, up.node)
+        ok = isinstance(t, ast.Compare) and len(t.ops) == 1 and isinstance(t.ops[0], ast.In) and unparse(t.left) == "self.modules['time'].step"
+        if ok:
+            ok, what = _is_step_collection(prog, t.comparators[0])
+    rep.check(rule, up.qual, "release iff the current step is a release step", ok, what_bad=f"trigger {[xunparse(i.test, up.node) for i in ifs]} {what}; releases outside a trigger: {[short(u) for u in unguarded]}", what_ok=f"{trig}", loc=up.loc())
     if ifs:
         body = ifs[0].body
         nexts = [n for s in body for n in ast.walk(s) if isinstance(n, ast.Call) and unparse(n.func) in ("next", "self.__next__")]
@@ -357,6 +388,10 @@ def run(prog: Program, rep: Report, tier: str) -> None:
     rep.rule("R04.5", "position pairing (shared with C16 R16.1)", 3)
     rep.rule("R04.6", "continuous mode: ticks anchored at the first file time, forward fill, explode", 6)
     rep.rule("R04.7", "every pandas keyword used exists in the installed pandas", 9)
+    rep.rule("R04.8", "released values reach the state: in State.append the caller's value wins over the configured default, NaN only when neither exists (shared with C05 R05.2)", 4)
+    from . import c05
+
+    c05.value_precedence(prog, rep, "R04.8")
     filters(prog, rep)
     alignment(prog, rep)
     cursor(prog, rep)
